@@ -23,6 +23,7 @@ EXPLANATION = (
     " Also decided (rule added after the fifth blind round): (R8.7) arithmetic / bit operators on a missing field give the sentinel again in both engines - "
     "the sentinel class defines every binary operator method, its reflected twin and the unary ones, each returning the sentinel, and the interpreted BinOp "
     "guard returns the sentinel rather than False - so a comparison with the result is false and does not raise."
+    " Rules added after the sixth blind round: (R8.8 = R14.5 of C14) the descriptor of a descriptor-less JSON line derives from that line alone."
 )
 RULE_SUMMARY = ("the table is enumerated exhaustively (ops x positions x kinds x engines); a cell is non-trivial when its "
                 "outcome required evaluating a source method or a lambda body; distinct = distinct cells")
